@@ -30,6 +30,13 @@ pub trait LockObserver: Send + Sync {
     fn after_acquire(&self, lock_addr: usize, kind: LockKind);
     /// Called after the calling thread released a guard.
     fn after_release(&self, lock_addr: usize, kind: LockKind);
+    /// Called before a non-blocking acquisition attempt.  `Some(false)` makes
+    /// the attempt report `WouldBlock` without touching the lock (the observer
+    /// has decided that another thread got there first), `Some(true)` and
+    /// `None` let it go ahead.
+    fn try_acquire(&self, _lock_addr: usize, _kind: LockKind) -> Option<bool> {
+        None
+    }
 }
 
 thread_local! {
@@ -114,8 +121,14 @@ impl<T> RwLock<T> {
     }
 
     /// Non-blocking shared acquisition (not a scheduling point).
+    /// (It becomes one if the observer implements `try_acquire`.)
     pub fn try_read(&self) -> TryLockResult<RwLockReadGuard<'_, T>> {
         let addr = self.addr();
+        if let Some(obs) = observer() {
+            if obs.try_acquire(addr, LockKind::Read) == Some(false) {
+                return Err(TryLockError::WouldBlock);
+            }
+        }
         match self.inner.try_read() {
             Ok(guard) => {
                 if let Some(obs) = observer() {
@@ -136,8 +149,14 @@ impl<T> RwLock<T> {
     }
 
     /// Non-blocking exclusive acquisition (not a scheduling point).
+    /// (It becomes one if the observer implements `try_acquire`.)
     pub fn try_write(&self) -> TryLockResult<RwLockWriteGuard<'_, T>> {
         let addr = self.addr();
+        if let Some(obs) = observer() {
+            if obs.try_acquire(addr, LockKind::Write) == Some(false) {
+                return Err(TryLockError::WouldBlock);
+            }
+        }
         match self.inner.try_write() {
             Ok(guard) => {
                 if let Some(obs) = observer() {
